@@ -988,3 +988,49 @@ fn c17_u_run_listener() {
     assert!(g.he_calls == 1, "C17: an accepted custom listener's event is delivered to the backend exactly once (never taken for a queue or the exit event)");
     assert!(g.he_event as u64 == id, "C17: the listener event is delivered with exactly the registered id");
 }
+
+// ---------------------------------------------------------------------------------------- C14: new channel
+// @harness props=C14 tier=quick reach=off timeout=600 bound="SET_BACKEND_REQ_FD: all 64-bit acknowledged protocol-feature words; the channel handed to the backend refuses / sends shared-memory and shared-object requests and sets NEED_REPLY exactly as SHMEM, SHARED_OBJECT and REPLY_ACK were acknowledged" stubs="vmm-sys-util raw_sendmsg (records the header flags word) / raw_recvmsg (stream closed), Mutex::lock (try_lock), close/OwnedFd::drop"
+#[kani::proof]
+#[kani::unwind(5)]
+#[kani::stub(vmm_sys_util::sock_ctrl_msg::raw_sendmsg, vgm::ghost_sendmsg)]
+#[kani::stub(vmm_sys_util::sock_ctrl_msg::raw_recvmsg, vgm::ghost_recvmsg_closed)]
+#[kani::stub(std::sync::Mutex::lock, vgm::ghost_mutex_lock)]
+#[kani::stub(libc::close, vgm::ghost_close)]
+#[kani::stub(<std::os::fd::OwnedFd as std::ops::Drop>::drop, vgm::ghost_ownedfd_drop)]
+#[kani::stub(std::alloc::handle_alloc_error, vgm::ghost_alloc_error)]
+#[kani::stub(log::max_level, log_off)]
+fn c14_u_backend_req_channel_flags() {
+    use std::os::unix::io::FromRawFd;
+    use vhost::vhost_user::message::{VhostUserMMap, VhostUserSharedMsg};
+    use vhost::vhost_user::{Backend, VhostUserFrontendReqHandler};
+    let (mut h, _) = mk_handler_m(1, &[0b1]);
+    let ap: u64 = kani::any();
+    h.acked_protocol_features = ap;
+    // SAFETY: descriptor 5 is never used for real I/O (the socket calls are stubbed)
+    let b = Backend::from_stream(unsafe { std::os::unix::net::UnixStream::from_raw_fd(5) });
+    h.set_backend_req_fd(b);
+    // SAFETY: single-threaded harness
+    let ch = unsafe { crate::backend::verif::BREQ.0.take() };
+    assert!(ch.is_some(), "C14: the channel reaches the backend");
+    let ch = ManuallyDrop::new(ch.unwrap());
+    let shm = ap & VhostUserProtocolFeatures::SHMEM.bits() != 0;
+    let so = ap & VhostUserProtocolFeatures::SHARED_OBJECT.bits() != 0;
+    let ra = ap & VhostUserProtocolFeatures::REPLY_ACK.bits() != 0;
+    // shared-memory request
+    let r = ch.shmem_unmap(&VhostUserMMap::default());
+    std::mem::forget(r);
+    // SAFETY: reading ghost state
+    let (sends1, flags1) = unsafe { (vgm::TXG.0, vgm::TXG.1) };
+    assert!((sends1 == 1) == shm, "C14: a new backend-request channel inherits the shared-memory setting (SHMEM acknowledged <=> requests are sent)");
+    if shm {
+        assert!((flags1 & 0x8 != 0) == ra, "C14: a new backend-request channel inherits the reply-ack setting (NEED_REPLY <=> REPLY_ACK acknowledged)");
+    }
+    // shared-object request
+    let r = ch.shared_object_remove(&VhostUserSharedMsg::default());
+    std::mem::forget(r);
+    // SAFETY: reading ghost state
+    let sends2 = unsafe { vgm::TXG.0 };
+    assert!((sends2 - sends1 == 1) == so, "C14: a new backend-request channel inherits the shared-object setting");
+    kani::cover!(shm && so && ra);
+}
